@@ -380,7 +380,10 @@ def _run_family(ck, n_grammars, n_random, p_err=0.3, want_hist=True, conflict_bi
         nreg = len(reg)
         tab_lines = []
         for (i_a, i_n, i_s, sg) in idx:
-            tab_lines += ["lrtab %d" % i_a, "terminals %d" % i_a, "c05oracle %d" % i_a, "validate %d" % i_a]
+            # a -zip build is compared with the model's `zipTables (genParser g)` (Model/ActionFold: encodeRow, decodeRow, copyGoto),
+            # the plain build with `genParser g` itself; Props/C12Tables proves the two equal
+            zipped = "-zip" in b.items[i_a]["flags"]
+            tab_lines += ["%s %d" % ("lrtabzip" if zipped else "lrtab", i_a), "terminals %d" % i_a, "c05oracle %d" % i_a, "validate %d" % i_a]
         mtabs = C.run_model(reg + tab_lines, timeout=3000)[nreg:]
         itabs_lines = []
         for (i_a, i_n, i_s, sg) in idx:
